@@ -66,7 +66,7 @@ def static_only(prog):
     out = []
     for st in prog:
         if st[0] in ("set", "mut"):
-            if E.is_static(st[1]) or st[1].startswith("<unknown") or st[1].startswith("<escape"):
+            if E.is_static(st[1]) or st[1].startswith(("<unknown", "<escape")):       # not "<unordered": a callee's own business
                 out.append(("mut", st[1], [], False))
         elif st[0] == "if":
             b, o = static_only(st[3]), static_only(st[4])
